@@ -2,7 +2,8 @@
 """file the behaviour-preserving refactorings a sub-agent left in <worktree>/REFACTORS/ under /verif/refactors/<pid>-rN/ (patch.diff + meta.json)
 after re-checking them: the patch applies to the clean tree and the crate's test suite passes with it.  usage: file_refactors.py <worktree> <pid> [extra checks ...]"""
 import sys, os, json, subprocess, shutil
-wt, pid = sys.argv[1], sys.argv[2]; extra = sys.argv[3:]
+wt, pid = sys.argv[1], sys.argv[2]; extra = [a for a in sys.argv[3:] if not a.startswith('--')]
+SUB = next((a.split('=')[1] for a in sys.argv[3:] if a.startswith('--dir=')), 'REFACTORS'); TAG = next((a.split('=')[1] for a in sys.argv[3:] if a.startswith('--tag=')), 'r')
 V = os.path.dirname(os.path.dirname(os.path.abspath(__file__)))
 OWN = {'src/nuts.rs': ['C01', 'C03', 'C05'], 'src/adapt_strategy.rs': ['C06', 'C09'], 'src/stepsize/dual_avg.rs': ['C07'], 'src/stepsize/adam.rs': ['C07'], 'src/stepsize/adapt.rs': ['C07', 'C06', 'C09'],
        'src/dynamics/transformed_hamiltonian.rs': ['C02', 'C05', 'C16', 'C18'], 'src/dynamics/state.rs': ['C03'], 'src/dynamics/hamiltonian.rs': ['C16', 'C05'], 'src/transform/diagonal.rs': ['C02', 'C08', 'C16'],
@@ -12,15 +13,15 @@ OWN = {'src/nuts.rs': ['C01', 'C03', 'C05'], 'src/adapt_strategy.rs': ['C06', 'C
 env = dict(os.environ, CARGO_NET_OFFLINE='true', CARGO_TARGET_DIR=os.path.join(wt, 'target'))
 def sh(cmd):
     p = subprocess.run(cmd, shell=True, cwd=wt, env=env, stdout=subprocess.PIPE, stderr=subprocess.STDOUT, text=True); return p.returncode, p.stdout
-try: notes = json.load(open(os.path.join(wt, 'REFACTORS', 'notes.json')))
+try: notes = json.load(open(os.path.join(wt, SUB, 'notes.json')))
 except Exception as e: notes = []
-sh('git checkout -- . ; git clean -fdq -e REFACTORS -e target'); kept = 0
+sh('git checkout -- . ; git clean -fdq -e REFACTORS -e REFACTORS2 -e target'); kept = 0
 for k in range(1, 9):
-    pf = os.path.join(wt, 'REFACTORS', 'refactor-%d.diff' % k)
+    pf = os.path.join(wt, SUB, 'refactor-%d.diff' % k)
     if not os.path.exists(pf): continue
-    rc, out = sh('git apply --check REFACTORS/refactor-%d.diff' % k)
+    rc, out = sh('git apply --check %s/refactor-%d.diff' % (SUB, k))
     if rc != 0: print(pid, k, 'does not apply'); continue
-    sh('git apply REFACTORS/refactor-%d.diff' % k)
+    sh('git apply %s/refactor-%d.diff' % (SUB, k))
     rc, files = sh('git diff --name-only'); files = [f for f in files.split() if f]
     rc, out = sh('cargo test --workspace --no-fail-fast --offline 2>&1 | grep -E "^test result|FAILED|^error" ')
     ok = 'FAILED' not in out and 'test result: ok' in out and 'error' not in out
@@ -32,7 +33,7 @@ for k in range(1, 9):
             if c not in checks: checks.append(c)
     for c in [pid] + extra:
         if c not in checks: checks.append(c)
-    d = os.path.join(V, 'refactors', '%s-r%d' % (pid, k)); shutil.rmtree(d, ignore_errors=True); os.makedirs(d)
+    d = os.path.join(V, 'refactors', '%s-%s%d' % (pid, TAG, k)); shutil.rmtree(d, ignore_errors=True); os.makedirs(d)
     shutil.copy(pf, os.path.join(d, 'patch.diff'))
     note = next((n for n in notes if str(n.get('patch', '')).endswith('refactor-%d.diff' % k)), {})
     json.dump({'property': pid, 'files': files, 'checks': checks, 'note': note, 'suite_passes': True}, open(os.path.join(d, 'meta.json'), 'w'), indent=1)
